@@ -246,7 +246,7 @@ func detectRenames(repo string) []string {
 				second = sim
 			}
 		}
-		if bestK != "" && best >= 0.75 && best-second >= 0.15 {
+		if bestK != "" && best >= 0.75 && (best-second >= 0.15 || (best >= 0.999 && second < 0.999)) {
 			used[bestK] = true
 			renamedFuncs[bestK] = oldName{mr, strings.HasPrefix(knownSigs[m], "*"), mn}
 			_, _, nn := split(bestK)
